@@ -39,5 +39,5 @@ package client
 //@ func (*Aggregate).Flush
 //@   assigns a.group.sets, a.mutex, g_flushed, *a.globalGroup.GroupSet.sets, elems(a.globalGroup.GroupSet.sets), *a.globalGroup.semaphore
 //@   effect g_flushed == 1
-//@   at-call ).Merge [blocking-merge-of-own-group] arg1 == a.query && arg2 == a.group
+//@   at-call GlobalGroupSet).Merge@a.globalGroup.Merge( [blocking-merge-of-own-group] arg1 == a.query && arg2 == a.group
 //@   ensures [emptied] forallStr(k, !has(a.group.sets, k))
